@@ -1,4 +1,5 @@
 import IndicatorVerif.Props.C01Gen
+import IndicatorVerif.Proofs.ScaleReal
 /-
   C01 — indicator values equal their documented formulas: hand-written part.
   (Generated theorems: Props/C01Gen.lean; proved-so-far list: DESIGN §6 C01.)
@@ -32,5 +33,49 @@ theorem vpt_formula (N : Nat) (fs : List ℝ) (x : Nat → Nat → ℝ) :
        = (fun (acc : ℝ) (i : ℕ) => acc + x 1 i * (x 0 i - x 0 (i - 1)) / x 0 (i - 1)) := by
     funext acc j; ring
   rw [this]
+
+/-- the recursive moving average of the negated stream is the negated average -/
+theorem rma_neg (N p s : Nat) (f g : Nat → ℝ) (h : ∀ i, g i = -f i) (i : Nat) :
+    (PS.rma N p ⟨s, g⟩).val i = -(PS.rma N p ⟨s, f⟩).val i := by
+  have := (PS.Scaled.rma N p (c := -1) (P := ⟨s, f⟩) (Q := ⟨s, g⟩) ⟨rfl, fun i => by simp [h]⟩).2 i
+  simpa using this
+
+/-- RSI on an input stream: Go's `100 − 100/(1 + gains/(−avg of negative changes))` is the documented
+    `100 − 100/(1 + AvgGain/AvgLoss)` -/
+theorem rsi_agree (N : Nat) (p : Nat) (h0 : 1 ≤ p) (x : Nat → Nat → ℝ) :
+    Agree x (Ind.rsi p (Sig.input 0)) (Spec.rsi N p (PS.input (x 0))) := by
+  unfold_light
+  apply Sig.Agree.cast
+  agree_core N
+  all_goals (try ps_simp)
+  any_goals omega
+  intro i hi
+  simp
+  rw [rma_neg N p 1 (fun i => if x 0 i < x 0 (i - 1) then x 0 (i - 1) - x 0 i else 0)
+    (fun i => if x 0 i < x 0 (i - 1) then x 0 i - x 0 (i - 1) else 0) (fun j => by split <;> ring) i]
+  rw [neg_neg]
+  ring
+
+theorem rsi_formula (N : Nat) (p : Nat) (fs : List ℝ) (h0 : 1 ≤ p) (x : Nat → Nat → ℝ) :
+    ∃ e ps, lookup "Rsi" [p] fs = some e ∧ Spec.formulas N "Rsi" [p] fs x = some ps ∧
+      List.Forall₂ (Agree x) e.outs ps :=
+  ⟨_, _, rfl, rfl, List.Forall₂.cons (rsi_agree N p h0 x) List.Forall₂.nil⟩
+
+theorem stochasticRsi_formula (N : Nat) (p : Nat) (fs : List ℝ) (h0 : 1 ≤ p) (x : Nat → Nat → ℝ) :
+    ∃ e ps, lookup "StochasticRsi" [p] fs = some e ∧ Spec.formulas N "StochasticRsi" [p] fs x = some ps ∧
+      List.Forall₂ (Agree x) e.outs ps := by
+  refine ⟨_, _, rfl, rfl, ?_⟩
+  refine List.Forall₂.cons ?_ List.Forall₂.nil
+  have hr := rsi_agree N p h0 x
+  simp only [Ind.stochasticRsi, Ind.div, Ind.sub, Ind.i0, List.getD_cons_zero]
+  have hmn := Sig.Agree.movingMin p h0 hr
+  have hmx := Sig.Agree.movingMax p h0 hr
+  have hr0 := Sig.Agree.skip (p - 1) hr
+  have num := Sig.Agree.zip (fun a b => a - b) hr0 hmn rfl
+  have den := Sig.Agree.zip (fun a b => a - b) hmx hmn rfl
+  have q := Sig.Agree.zip (fun a b => a / b) num den rfl
+  refine q.cast ?_ ?_
+  · simp [PS.mmax, PS.mmin, PS.map2, Spec.rsi, PS.map]
+  · intro i _; rfl
 
 end C01
